@@ -625,6 +625,22 @@ class Holder_{n}:
         handlers.append(handle)
 print('{p}', [h(None) for h in Holder_{n}.handlers])
 '''),
+    (['import_in_function', 'multiline_import'], '''
+def paths_{n}(n):
+    from os.path import (join,
+                         basename,
+                         splitext)
+    import json as _js, \\
+        re as _re
+    return basename(join('a', str(n))), splitext('x.py')[1], _js.dumps([n]), bool(_re.match('a', 'ab'))
+def paths2_{n}():
+    from collections import (
+        OrderedDict,
+    )
+    from os import sep
+    return OrderedDict(a=1), len(sep)
+print('{p}', [paths_{n}(i) for i in range(2)], paths2_{n}())
+'''),
     (['lib_use'], '''
 print('{p}', 'lib', c08lib.alpha.fa(1), c08lib.beta.fb(1), c08lib.gamma.fg(1))
 '''),
@@ -711,6 +727,9 @@ def gen_program(rnd, module_mode=False):
         snippet_tags[p] = stags
         tags |= set(stags)
         body = code.strip('\n').format(p=p, n='%d' % j)
+        if rnd.random() < 0.25:
+            # line boundaries for str.splitlines(), not for the tokenizer
+            lines.append(rnd.choice(['# form feed \x0c in a comment', '\x0c', '# \x0b \x1c \x1d \x1e', '# NEL \x85 LS \u2028 PS \u2029']))
         w = rnd.choice(WRAPPERS)
         if w == 'none':
             lines.append(body)
@@ -740,12 +759,20 @@ def gen_behaviour_case(rnd, module_mode=False):
     prog = gen_program(rnd, module_mode)
     files = {'c08_helper.py': HELPER}
     files.update(LIB_FILES)
+    symlinks, script_real, modname_h = {}, None, None
     if module_mode:
-        files.update({'rpkg/__init__.py': '', 'rpkg/sib.py': 'thing = 5\ndef sf():\n    return 6\n',
-                      'rpkg/sub/__init__.py': '', 'rpkg/sub/near.py': 'def nf():\n    return 3\n'})
+        # the package is either a plain directory or reached through a symlink with ANOTHER name whose
+        # target is not importable itself (rpkg -> store/realpkg): its modules are rpkg.*, nothing else
+        root = 'rpkg/' if rnd.random() < 0.5 else 'store/realpkg/'
+        if root != 'rpkg/':
+            symlinks = {'rpkg': 'store/realpkg'}
+        files.update({root + '__init__.py': '', root + 'sib.py': 'thing = 5\ndef sf():\n    return 6\n',
+                      root + 'sub/__init__.py': '', root + 'sub/near.py': 'def nf():\n    return 3\n'})
         stem = rnd.choice(['runme', '__main__'])
         script = 'rpkg/sub/%s.py' % stem
+        script_real = root + 'sub/%s.py' % stem
         module = 'rpkg.sub' if stem == '__main__' else 'rpkg.sub.runme'
+        modname_h = 'rpkg.sub.%s' % stem
         me = [module, script]
     else:
         script = rnd.choice(['prog.py', 'dir_a/prog.py'])
@@ -754,7 +781,7 @@ def gen_behaviour_case(rnd, module_mode=False):
         if script.startswith('dir_a/'):
             for rel in ['c08_helper.py'] + sorted(LIB_FILES):
                 files['dir_a/' + rel] = files.pop(rel)
-    files[script] = prog['text']
+    files[script_real or script] = prog['text']
     cfgs = []
     pick = rnd.sample(['full', 'full_imports', 'helper', 'helper_full', 'nothing', 'lib', 'lib_full'], 2)
     for c in pick:
@@ -773,5 +800,6 @@ def gen_behaviour_case(rnd, module_mode=False):
             cfgs.append(['-p', 'c08lib,c08_helper,' + m])
         else:
             cfgs.append(['-p', 'nothing_matches_this'])
-    return dict(kind='behaviour', files=files, script=script, module=module, configs=cfgs, cfg_names=pick,
+    return dict(kind='behaviour', files=files, script=script, script_real=script_real or script, symlinks=symlinks,
+                modname_h=modname_h, module=module, configs=cfgs, cfg_names=pick,
                 tags=prog['tags'], snippet_tags=prog['snippet_tags'])
